@@ -499,6 +499,8 @@ type world struct {
 	lastRange  rawdb.FilterMapsRange // last persisted index range (watched through the disk hook)
 	haveRange  bool
 	qobs       map[int]string
+	clamped    map[int]map[uint64]bool // per query: blocks cut out by a clamped pointer lookup
+	allocBomb  map[int]string          // per query: stopped before a wrapped-around allocation
 	maxTarget  uint64 // highest target head handed to the indexer since it was last known idle
 	pulledDown map[uint64]bool // blocks that became "first indexed block" by the range being pulled down
 }
@@ -748,6 +750,10 @@ func (c *chainShim) NewMatcherBackend() filtermaps.MatcherBackend {
 	return &gatedMB{inner: c.w.fm.NewMatcherBackend(), w: c.w, q: q}
 }
 
+var errAllocBomb = errors.New("logsim: query stopped at the matcher-backend seam (first index above last index)")
+
+const allocKey = "crash:matcher-allocates-wrapped-map-range-after-index-revert"
+
 type qidKey struct{}
 
 func (w *world) curQ(ctx context.Context) int {
@@ -765,6 +771,8 @@ type gatedMB struct {
 	q     int
 
 	syncs    int
+	ptrCalls int
+	firstPtr uint64
 	lastIdx  common.Range[uint64]
 	haveLast bool
 }
@@ -773,8 +781,44 @@ func (g *gatedMB) GetParams() *filtermaps.Params { return g.inner.GetParams() }
 func (g *gatedMB) GetBlockLvPointer(ctx context.Context, n uint64) (uint64, error) {
 	g.w.sched.Gate(fmt.Sprintf("q%d:lvptr:%d", g.q, n))
 	p, err := g.inner.GetBlockLvPointer(ctx, n)
+	// Signature of a recorded finding: a lookup beyond a NOT head-indexed block range is
+	// answered with the pointer of blocks.Last(), the last FULLY indexed block, so that block
+	// is cut out of the search although the valid range reported later still contains it.
+	g.w.mu.Lock()
+	if r := g.w.lastRange; g.w.haveRange && !r.HeadIndexed && r.BlocksAfterLast > r.BlocksFirst && n >= r.BlocksAfterLast {
+		if g.w.clamped[g.q] == nil {
+			g.w.clamped[g.q] = map[uint64]bool{}
+		}
+		g.w.clamped[g.q][r.BlocksAfterLast-1] = true
+	}
+	g.w.mu.Unlock()
 	if trace {
 		fmt.Printf("LVPTR q%d block %d -> %d %v\n", g.q, n, p, err)
+	}
+	// GetPotentialMatches asks for exactly two pointers: first block, block after the last.
+	// If the index is reverted between the two, the second (clamped) answer can lie below the
+	// first; with firstMap > lastMap inside one epoch matcherEnv.processEpoch then evaluates
+	// make([]uint32, lm+1-fm) with a wrapped-around uint32 (~4G entries, 16 GB). That was
+	// observed for real once (worker stuck in memclr); it must not be allowed to happen on a
+	// shared machine, so the seam stops the query here and the harness reports the finding.
+	g.ptrCalls++
+	if err == nil {
+		if g.ptrCalls%2 == 1 {
+			g.firstPtr = p
+		} else {
+			last := p
+			if last > 0 {
+				last--
+			}
+			lv := g.w.p.LogValuesPerMap
+			fm, lm := uint32(g.firstPtr>>lv), uint32(last>>lv)
+			if fm > lm && fm>>g.w.p.LogMapsPerEpoch == lm>>g.w.p.LogMapsPerEpoch {
+				g.w.mu.Lock()
+				g.w.allocBomb[g.q] = fmt.Sprintf("first block pointer %d (map %d) > last pointer %d (map %d), same epoch %d: processEpoch would allocate %d map indices", g.firstPtr, fm, last, lm, fm>>g.w.p.LogMapsPerEpoch, lm+1-fm)
+				g.w.mu.Unlock()
+				return 0, errAllocBomb
+			}
+		}
 	}
 	return p, err
 }
@@ -1112,6 +1156,21 @@ func (w *world) runQuery(qid int, spec QuerySpec, phase string) {
 	w.qobs[qid] = fmt.Sprintf("query %s q%d [%d,%d] -> %d logs err=%v", phase, qid, first, last, len(got), err)
 	w.mu.Unlock()
 	ctxs := fmt.Sprintf("%s query q%d begin=%d end=%d (resolved [%d,%d], head %d) addrs=%v topics=%v", phase, qid, q.Begin, q.End, first, last, len(canon)-1, q.Addrs, q.Topics)
+	w.mu.Lock()
+	bomb := w.allocBomb[qid]
+	w.mu.Unlock()
+	if bomb != "" {
+		v := simcore.Violf("matcher-wrapped-allocation", "%s: the index was reverted between the two GetBlockLvPointer calls of GetPotentialMatches: %s (uint32 wrap-around in core/filtermaps/matcher.go processEpoch: make([]uint32, lm+1-fm)); the query was stopped at the seam instead of letting the process allocate ~16 GB", ctxs, bomb)
+		v.Key = allocKey
+		if simcore.IsKnown(v.Key) {
+			w.mu.Lock()
+			w.res.KnownHit(v.Key)
+			w.mu.Unlock()
+			return
+		}
+		w.fail(v)
+		return
+	}
 	if err != nil {
 		v := simcore.Violf("query-error", "%s returned error %q instead of %d logs", ctxs, err.Error(), len(want))
 		v.Key = "query-error:" + classify(err.Error())
@@ -1187,6 +1246,13 @@ func (w *world) runQuery(qid int, spec QuerySpec, phase string) {
 					v.Msg += fmt.Sprintf(" (indexed range: blocks %d..%d, maps %d..%d; block %d starts at log value %d = map %d, which is unindexed)",
 						r.BlocksFirst, r.BlocksAfterLast-1, r.MapsFirst, r.MapsAfterLast-1, l.BlockNumber, ptr, ptr>>w.p.LogValuesPerMap)
 				}
+			}
+			w.mu.Lock()
+			cl := w.clamped[qid][l.BlockNumber]
+			w.mu.Unlock()
+			if cl && v.Key == "logs-missing" {
+				v.Key = "logs-missing:lookup-clamped-to-last-fully-indexed-block"
+				v.Msg += fmt.Sprintf(" (during this query GetBlockLvPointer was asked for a block beyond a not-head-indexed range ending with block %d and answered with the START of block %d, cutting it out of the search; the valid range reported by the next SyncLogIndex still contained it)", l.BlockNumber, l.BlockNumber)
 			}
 			if simcore.IsKnown(v.Key) {
 				w.mu.Lock()
@@ -1288,7 +1354,7 @@ func (w *world) checkIdle(where string) {
 func Run(t *testing.T, pl any) *simcore.Result {
 	p := pl.(*Plan)
 	res := simcore.NewResult()
-	w := &world{p: p, res: res, getLogs: map[int]int{}, obs: simcore.NewHash(), lastFirst: -1, history: p.History, pulledDown: map[uint64]bool{}, qobs: map[int]string{}}
+	w := &world{p: p, res: res, getLogs: map[int]int{}, obs: simcore.NewHash(), lastFirst: -1, history: p.History, pulledDown: map[uint64]bool{}, qobs: map[int]string{}, clamped: map[int]map[uint64]bool{}, allocBomb: map[int]string{}}
 	w.params = filtermaps.VerifParams(p.LogMapHeight, p.LogMapWidth, p.LogMapsPerEpoch, p.LogValuesPerMap, p.BaseRowGroupSize, p.BaseRowLengthRatio, p.LogLayerDiff)
 	for i, b := range p.Blocks {
 		if b.Parent >= i || b.Parent < -1 {
